@@ -53,7 +53,7 @@ claim("C20", "runtime monitoring: BeginBlocker bracketed with full decoded bank-
       "Only the bank store is compared around BeginBlocker.")
 
 claim("C10", "runtime monitoring: reference model (stored header set + head) over generated header trees in random topological submission orders with field mutants; recorded main-net headers for the proof-of-work rule",
-      "See notes/reports/C10.md. Rinkeby-mode trees (branching 1-3, depth <= 12, competing branches, re-submission, children of non-head headers) and single-field mutants; accept iff parent stored and the time/gas-limit/EIP-1559 rules hold (base fee computed independently of the repository); head = last accepted; consensus states on the head's ancestry = ancestors' roots; every valid child of any stored header accepted. Main-net headers with full ethash verification, seal-relevant mutants rejected.",
+      "See notes/reports/C10.md. Rinkeby-mode trees (branching 1-3, depth <= 12, competing branches, re-submission, children of non-head headers) and single-field mutants; accept iff parent stored and the time/gas-limit/EIP-1559 rules hold (base fee computed independently of the repository); head = last accepted; consensus states on the head's ancestry = ancestors' roots; every valid child of any stored header accepted. Main-net headers with full ethash verification, seal-relevant mutants rejected, plus near-miss seals carrying the genuine mix digest (computed through the verif hook VerifLightPoW) and a synthetic zero-base-fee proof-of-work chain whose seals were mined once (London seal must be accepted; legacy seal and a genuinely sealed child claiming more difficulty than the rule must be refused); prune mode judges children of non-head headers while nothing has been pruned, and a probe submits a child of the oldest header at the moment it expires; state-root fields that are not 32 bytes long are probed (if accepted, the stored root must be the one the hash commits to).",
       "Difficulty rule for chain id 1 cannot be separated from the seal (valid PoW headers with another difficulty cannot be generated).")
 claim("C14", "runtime monitoring: differential replay of a recorded ABCI request stream in independent OS processes under an environment matrix (incl. replicas restarted over the same database every block / every fifth block) + wall-clock-tied live scenario replayed before/after its block time + strace observer of file-system/randomness/network calls during block execution + Go race detector pass with concurrent CheckTx/queries",
       "A history exercising every teleport message, EVM hook and proposal type (all client proposals for TM/BSC/ETH/TSS, all aggregate proposals, param change, XIBC traffic with every ack outcome, conversions, staking/gov system contracts, vesting blocks, TM/BSC/ETH(Rinkeby + main-net PoW)/TSS updates) is recorded on a chain driven only through ABCI from genesis; 6 (quick) / 16 (thorough, 3 scenarios) child processes replay the tape under different GOMAXPROCS, GOGC, TMPDIR/HOME (incl. missing), TZ/locale, cwd, start delay and inter-block sleeps (fresh map seeds per process) and must report identical app hashes, begin/end-block results and per-tx code/data/gas/events. The same tape is replayed under -race while 4 goroutines issue CheckTx and queries; a race whose accessing frame is in teleport code is a violation. A second tape whose last block time is the recorder's wall clock + ~4 s carries client updates one second either side of every time rule (TM drift/expiry, ETH future bound/expiry, BSC expiry) and is replayed at once and after the wall clock passed that time (must agree). One replica runs under strace with private cwd/HOME/TMPDIR: any path looked up below them, any getrandom and any socket call between the 'blocks only' markers is a violation.",
